@@ -56,6 +56,46 @@ EDIT_KINDS = ["setSize", "setPixel", "dropSpectrum", "clearSpectra", "addSpectru
 SECT_TAGS = ["fileDescription", "softwareList", "instrumentConfigurationList", "dataProcessingList", "cvList", "sampleList"]
 
 
+# cvParam line styles beyond gen_imzml's five (styles NSTYLES .. NSTYLES + XSTYLES - 1), all with accession before value:
+XSTYLES = 4
+
+
+def render_cv_x(it):
+    """5: unit attributes BEFORE the accession (the regular expression's `accession="` also occurs inside `unitAccession="`,
+    the search has to go on); 6: nothing but accession and value; 7: explicit end tag on the same line; 8: tabs and several
+    blanks between the attributes"""
+    a, v, n = it["acc"], it["value"], it.get("name", "p")
+    cvref = a.split(":")[0]
+    val = "" if v is None else f' value="{v}"'
+    k = it["style"] - gen_imzml.NSTYLES
+    if k == 0:
+        return f'<cvParam unitCvRef="UO" unitAccession="UO:0000017" unitName="micrometer" cvRef="{cvref}" accession="{a}" name="{n}"{val}/>'
+    if k == 1:
+        return f'<cvParam accession="{a}"{val}/>'
+    if k == 2:
+        return f'<cvParam cvRef="{cvref}" accession="{a}" name="{n}"{val}></cvParam>'
+    tv = "" if v is None else f'\t  value="{v}"'
+    return f'<cvParam\tcvRef="{cvref}"\taccession="{a}" \t name="{n}"{tv}\t/>'
+
+
+def text_doc(doc):
+    """the document as the text writer sees it: cvParam items of the extra styles become verbatim lines (the driver keeps
+    seeing them as cvParam items)"""
+    def conv(items):
+        return [gen_imzml.misc(render_cv_x(it)) if it["t"] == "cv" and gen_imzml.NSTYLES <= it.get("style", 0) < gen_imzml.NSTYLES + XSTYLES
+                else it for it in items]
+
+    out = dict(doc)
+    for k in ("pre", "mid1", "mid2", "post"):
+        out[k] = [{**sct, "items": conv(sct["items"])} for sct in doc[k]]
+    out["groups"] = [{**g, "items": conv(g["items"])} for g in doc["groups"]]
+    out["settings"] = [{**st, "items": conv(st["items"])} for st in doc["settings"]]
+    out["spectra"] = [{**sp, "items": conv(sp["items"]), "scanlist": conv(sp["scanlist"]), "scans": [conv(sc) for sc in sp["scans"]],
+                       "arrays": [{**a, "items": conv(a["items"])} for a in sp["arrays"]], "tail": conv(sp["tail"])}
+                      for sp in doc["spectra"]]
+    return out
+
+
 def render_kinds(doc):
     return [t for _, t in gen_imzml.render_lines(doc)]
 
@@ -171,13 +211,33 @@ class C17(Prop):
             "dyadic m/z, finite TIC texts). About 4 % of the cases are hypothesis-excluded (`entity:value`, `entity:ref`, "
             "`entity:group-id`: a character reference such as `1&#48;`, `mz&#65;rray`, `&#x31;` in a read value, a ref or a group id; "
             "`TextOk` fails): there only impl = model is demanded, fast parser against `fastParse (render d)` on the raw text, XML parser "
-            "against `xmlView (xmlDoc d)`. non-trivial = any of these layout-noise classes; distinct by canonical case hash")
+            "against `xmlView (xmlDoc d)`. The object the progress callback hands back (features `callback-object:*`, 60 % of the cases "
+            "something else than plain True/False): bool, numpy.bool_ (what `pos < np.int64(limit)` gives), int 1/0 - decided by the "
+            "property (`PyVal.isFalse` aborts, `PyVal.isTrue` does not) - and other truthy objects (2, -1, str, list, tuple, dict, float, "
+            "NumPy scalars, object()) / falsy objects that are not False (None, '', [], (), {}, 0.0, NumPy zeros), for which every outcome "
+            "of `okOutcomes` is accepted (recorded only); at the first / a middle / the last / a random spectrum or never. Histories "
+            "(feature `history`, 30 % of the small in-layout cases + 8 targeted): after the three imports of every case (fast, XML, fast "
+            "with callback) the same path is imported 1-3 more times in the same process through either parser (`from_file`, "
+            "`fast_parse_imzml` with and without callback, aborted or not), with the case's binary or a second binary of the same layout "
+            "and other content (passed explicitly or by default), while the caller edits the objects it holds in between (image size, "
+            "pixel size, deleting / adding / clearing spectra, TIC, position, offsets and lengths, the two param groups, the binary "
+            "path; one of every kind in a quarter of the histories): every import is judged against `runOps` / the XML model of the "
+            "document with the binary given to THAT import (model fields, which binary the object reads, exact images). Every public "
+            "extraction function (extract_tic, extract_masses by m/z and by ppm width, mass_range, binned_masses) is run on both "
+            "parsers' objects of every case with data and compared bit for bit. "
+            "non-trivial = any of these layout-noise classes; distinct by canonical case hash")
     trusted = ["xml.etree.ElementTree and `re` behave as documented; the abstract-line tokenisation of the rendered text is validated "
                "only by this differential run (harness renders text, driver renders abstract lines from the same description; the "
                "harness checks that the text lines at the driver's `callLine` indices are the <spectrumList>/<spectrum> lines)",
                "int()/float() of the selected attribute text is applied by the harness to the model's output (both parsers call the same functions)",
-               "the tables realising `Bin` (text -> int()/float() value, (group id, offset, length) -> numbers decoded from the .ibd with "
-               "the group's declared type) are built by the harness with int(), float() and numpy.frombuffer",
+               "the conversions of the image functions are the model's: `pyNat` (int() of a digit text), `pyFloat` (float() of a decimal "
+               "text = the nearest binary64, assuming CPython's correctly rounded conversion) and C05's `readValues` on the bytes of the "
+               ".ibd the harness wrote (sent as hex); where one of them does not apply (`convertible` false: signs, blanks, inf, a "
+               "buffer NumPy rejects) the exact image comparison is skipped and only fast image == XML image is demanded",
+               "callback objects: the harness maps the Python object to its abstract form (kind, value / truth value); for `other` objects "
+               "the truth value is Python's bool() of the object",
+               "histories: the Python statements of the caller edits (harness) and `Edit.apply` (model) are not compared with each other; "
+               "the objects are observed when an import returns them, not afterwards",
                "hypothesis-excluded entity cases: the model keeps numbers as text, so WHERE int()/float() of a raw text such as `1&#48;` "
                "raises (scan settings: before any callback; spectrum j: after invocation j) is worked out by the harness from the model's "
                "texts in the order the code converts them"]
@@ -190,7 +250,12 @@ class C17(Prop):
                    "and CRLF line ends; the line lengths given to the model are byte lengths of the UTF-8 text. Non-ASCII text is only "
                    "generated (and only kept in a replayed case) when locale.getpreferredencoding(False) is UTF-8",
                    "the exact images are compared only when every TIC text is finite, intensities are integers and m/z values dyadic "
-                   "(sums exact in float32/float64) and positions lie inside the image; otherwise only fast image == XML image"]
+                   "(sums exact in float32/float64) and positions lie inside the image; otherwise only fast image == XML image",
+                   "'a callback returning False' is read as: the returned object is False, numpy.False_ or the int 0 (all equal to False); "
+                   "'not False' for certain: True, numpy.True_, 1.  For any other object (None, 2, 'x', 0.0, ...) the text demands neither "
+                   "abort nor continuation: the unchanged code aborts on every falsy object, a code that aborts only on objects equal to "
+                   "False is not reported (recorded only)",
+                   "which binary a returned object reads is observed through `external_binary` (os.path.samefile) and through the images"]
 
     # ------------------------------------------------------------------ generation
     def noise(self, rng, avoid, n=None, refs_ok=True):
@@ -199,7 +264,7 @@ class C17(Prop):
             r = rng.random()
             if r < 0.6:
                 pool = [a for a in NOISE_ACCS + (ALL_READ if rng.random() < 0.5 else []) if a not in avoid]
-                out.append(cv(rng.choice(pool), rng.choice(NOISE_VALUES), rng.randint(0, gen_imzml.NSTYLES - 1), rng.choice(NAMES)))
+                out.append(cv(rng.choice(pool), rng.choice(NOISE_VALUES), self.sty(rng), rng.choice(NAMES)))
             elif r < 0.85:
                 out.append(user(rng.choice(["3DPositionX", "note", "accession"]), rng.choice(["2975.78", "a b", "1e+3"])))
             elif refs_ok:
@@ -215,7 +280,7 @@ class C17(Prop):
         return items
 
     def sty(self, rng):
-        return rng.randint(0, gen_imzml.NSTYLES - 1)
+        return rng.randint(0, gen_imzml.NSTYLES + XSTYLES - 1)
 
     def num(self, rng, big=False):
         if big or rng.random() < 0.1:
@@ -225,8 +290,11 @@ class C17(Prop):
 
     def tic_text(self, rng):
         v = rng.choice([52676.0, 1.5e6, 0.0, 7.25, 1234567.875, 3e-3])
-        k = rng.randint(0, 8)
-        return [None, "%d" % int(v), "%.6f" % v, "%.6e" % v, "%E" % v, "-%.3e" % v, "+%d" % int(v), "%g" % v, "inf"][k]
+        if rng.random() < 0.04:          # texts float() turns into something that is not a finite number
+            return rng.choice(["inf", "nan", "1e400", "-Infinity"])
+        forms = [None, None, "%d" % int(v), "%.6f" % v, "%.6e" % v, "%E" % v, "-%.3e" % v, "+%d" % int(v), "%g" % v,
+                 "%d." % int(v), " %.2f " % v, "%.17g" % (v / 3), "%.3e" % (v * 1e-300)]
+        return rng.choice(forms)
 
     def generate(self, rng, tier):
         # the large-document class is decided on a fork of the case PRNG, so every other case is drawn exactly as before
@@ -247,10 +315,14 @@ class C17(Prop):
         elif r < NON_ASCII_P + ENTITY_P and not large:
             case["entity"] = {"kind": rng.choice(ENTITY_KINDS), "pick": rng.randint(0, 10 ** 6), "form": rng.choice(["dec", "hex", "dec0"])}
         more = random.Random(rng.getrandbits(64))          # (the draws above stay what they were)
+        if more.random() < 0.1:
+            case["text"] = {"bom": more.random() < 0.5, "no_final_newline": more.random() < 0.6}
+        if more.random() < 0.05 and not large:
+            case["long_lines"] = {"seed": more.randint(0, 10 ** 6), "len": more.choice([300, 5000, 9000, 70000])}
         cbv = self.gen_cbv(more, decided_only=large)
         if cbv is not None:
             case["cbv"] = cbv
-        if not large and case.get("entity") is None and more.random() < HIST_P:
+        if not large and case.get("entity") is None and more.random() < (HIST_P * 1.5 if case["data"] is not None else HIST_P / 2):
             case["hist"] = self.gen_hist(more, case)
         return case
 
@@ -350,7 +422,7 @@ class C17(Prop):
             pos = [rng.choice(cells) for _ in range(nspec)] if rng.random() < 0.2 else rng.sample(cells, min(nspec, len(cells)))
             data = []
             for _ in pos:
-                n = rng.randint(1, 5)
+                n = rng.choice([0, 1, 1, 2, 2, 3, 3, 4, 4, 5, 5, 5])        # (0: a spectrum without peaks, both array lengths 0)
                 mz = sorted({rng.randint(6400, 9600) / 64 for _ in range(n)})
                 data.append({"mz": mz, "it": [float(rng.randint(0, 500)) for _ in mz]})
             mz_acc, it_acc = gen_imzml.DTYPE_ACC[mzdt], gen_imzml.DTYPE_ACC[itdt]
@@ -400,7 +472,12 @@ class C17(Prop):
         rng.shuffle(groups)
         # ---- scan settings
         settings = []
-        for k in range(rng.choice([1, 1, 1, 2, 3])):
+        nset = rng.choice([1, 1, 1, 2, 3, 3, 6])
+        same = rng.random() < 0.3          # all <scanSettings> say the same
+        for k in range(nset):
+            if same and k > 0:
+                settings.append({"id": "scanSettings%d" % k, "items": copy.deepcopy(settings[0]["items"])})
+                continue
             req = [cv(ACC["PIXEL_X"], rng.choice(["30", "100.5", "1e2", "2.5E+1", "0.5"]), self.sty(rng), "pixel size (x)"),
                    cv(ACC["PIXEL_Y"], rng.choice(["30", "100.5", "1e-2", "7"]), self.sty(rng), "pixel size y")]
             sz = size if k == 0 else ([self.num(rng), self.num(rng)] if rng.random() < 0.5 else None)
@@ -443,16 +520,16 @@ class C17(Prop):
             yield c
         # one large document, the callback returning False never / at the first / a middle / the last / a random spectrum
         c = self.gen_doc(random.Random(1017), tier, large=2048)
-        for ab in (None, 0, 1024, 2047, random.Random(1018).randint(1, 2046)):
-            yield {**c, "abort": ab}
+        c["doc"]["trail"] = c["doc"]["trail"].replace("\r", "")          # LF here, CRLF below
+        # (the callback compares with a NumPy integer in the third, hands back 1 / 0 in the fourth)
+        for ab, cbv in ((None, None), (0, None), (1024, {"t": PV_TRUE[1], "f": PV_FALSE[1]}), (2047, {"t": PV_TRUE[2], "f": PV_FALSE[2]}),
+                        (random.Random(1018).randint(1, 2046), None)):
+            yield {**c, "abort": ab, **({} if cbv is None else {"cbv": cbv})}
         # the same document with CRLF line ends (tell() across \r|\n chunk boundaries), and with non-ASCII names
         crlf = {**c, "doc": {**c["doc"], "trail": "\r"}}
         yield {**crlf, "abort": None}
         yield {**crlf, "abort": random.Random(1019).randint(1, 2046), **({"non_ascii": 7} if UTF8_LOCALE else {})}
         yield {**c, "abort": 1500, **({"non_ascii": 11} if UTF8_LOCALE else {})}
-        # the large document with a callback that compares with a NumPy integer (numpy.bool_) / hands back 0 and 1
-        yield {**c, "abort": 1024, "cbv": {"t": PV_TRUE[1], "f": PV_FALSE[1]}}
-        yield {**c, "abort": 2047, "cbv": {"t": PV_TRUE[2], "f": PV_FALSE[2]}}
         # every pair of decided objects at the first / a middle / the last spectrum, and never; the undecided ones once each
         k = 0
         for tv in PV_TRUE:
@@ -527,6 +604,17 @@ class C17(Prop):
             it["name"] = rng.choice(NAMES_NON_ASCII)
         return doc
 
+    def with_long_lines(self, doc, ll):
+        """very long lines (longer than the 8 KiB read-ahead chunk of the text layer): a long name attribute on a few
+        cvParam / userParam lines, one of them inside a spectrum when there is one"""
+        doc = copy.deepcopy(doc)
+        rng = random.Random(ll["seed"])
+        named = [it for items in self.item_lists(doc) for it in items if it["t"] in ("cv", "user")]
+        inspec = [it for sp in doc["spectra"] for items in [sp["items"], sp["tail"]] + sp["scans"] for it in items if it["t"] in ("cv", "user")]
+        for it in (rng.sample(named, min(2, len(named))) + (rng.sample(inspec, 1) if inspec else [])):
+            it["name"] = (it.get("name", "p") + " ") + "".join(rng.choice("abc xyz_.-()") for _ in range(ll["len"]))
+        return doc
+
     def with_entity(self, doc, ent):
         """one character of a read value / a ref / a group id written as a character reference; returns (doc, feature or None)"""
         doc = copy.deepcopy(doc)
@@ -598,6 +686,8 @@ class C17(Prop):
                 for it in items:
                     if "name" in it:
                         it["name"] = it["name"].encode("ascii", "replace").decode("ascii")
+        if case.get("long_lines") is not None:
+            doc = self.with_long_lines(doc, case["long_lines"])
         entity = None
         if case.get("entity") is not None:
             doc, entity = self.with_entity(doc, case["entity"])
@@ -703,10 +793,10 @@ class C17(Prop):
                 return img_tokens(r)
             except Exception as e:
                 return canon_exc(e)
-        out = {"tic": run(m.extract_tic), "masses_mz": run(lambda: m.extract_masses(MASSES, mass_width_mz=MASS_WIDTH)),
-               "masses_ppm": run(lambda: m.extract_masses(np.array(MASSES + [112.5]), mass_width_ppm=4e4)),
-               "mass_range": run(lambda: np.array(m.mass_range(), dtype=np.float64))}
-        if small:
+        out = {"tic": run(m.extract_tic), "masses_mz": run(lambda: m.extract_masses(MASSES, mass_width_mz=MASS_WIDTH))}
+        if small:       # (documents of a thousand spectra: the two above only, for time)
+            out["masses_ppm"] = run(lambda: m.extract_masses(np.array(MASSES + [112.5]), mass_width_ppm=4e4))
+            out["mass_range"] = run(lambda: np.array(m.mass_range(), dtype=np.float64))
             out["binned"] = run(lambda: m.binned_masses(mass_width_mz=2.5))
         return out
 
@@ -896,9 +986,21 @@ class C17(Prop):
         from pewlib.io import imzml
 
         doc, ibd, entity = self.materialise(case)
+        tdoc = text_doc(doc)
         d = ctx.tmpdir()
-        path = gen_imzml.write_pair(d, doc, ibd)
-        ends = gen_imzml.line_end_positions(doc)
+        # text-level variations no parser looks at: a byte-order mark before the first line, no line end after the last line
+        text = gen_imzml.render(tdoc)
+        ends = gen_imzml.line_end_positions(tdoc)
+        tv = case.get("text") or {}
+        if tv.get("bom") and UTF8_LOCALE:
+            text = "\ufeff" + text
+            ends = [e + 3 for e in ends]
+        if tv.get("no_final_newline"):
+            text = text[:-1]
+            ends[-1] -= 1
+        path = d / "t.imzML"
+        path.write_text(text, encoding="utf-8", newline="\n")
+        (d / "t.ibd").write_bytes(ibd)
         lens = [b - a for a, b in zip([0] + ends[:-1], ends)]
         nspec = len(doc["spectra"])
         abort = case["abort"]
@@ -911,7 +1013,7 @@ class C17(Prop):
         if not in_layout and not (entity is not None and rep["layout_core_decoded"] and not rep["text_ok"]):
             raise core.InternalError("generated document is outside the layout predicate")
         # tokenisation contract: the lines the model names as the places of the callback are the <spectrumList>/<spectrum> lines
-        kinds = render_kinds(doc)
+        kinds = render_kinds(tdoc)
         for k, li in enumerate(rep["call_lines"]):
             if not kinds[li].startswith("<spectrumList " if k == 0 else "<spectrum "):
                 raise core.InternalError("line %d of the text is not the line the model invokes callback %d on" % (li, k))
@@ -1096,6 +1198,26 @@ class C17(Prop):
             f.add("types:%s/%s" % (DTYPE_NAME[gt["mzArray"][0]], DTYPE_NAME[gt["intensities"][0]]))
         if has_non_ascii(doc):
             f.add("non-ascii-text")
+        tvar = case.get("text") or {}
+        if tvar.get("bom") and UTF8_LOCALE:
+            f.add("text:byte-order-mark")
+        if tvar.get("no_final_newline"):
+            f.add("text:no-final-line-end")
+        if case.get("long_lines") is not None:
+            f.add("long-lines:%d" % case["long_lines"]["len"])
+        styles = {it.get("style", 0) for items in self.item_lists(doc) for it in items if it["t"] == "cv"}
+        for st in styles:
+            if st >= gen_imzml.NSTYLES:
+                f.add("cv-style:%s" % ["unit-attributes-first", "accession-value-only", "end-tag-on-line", "tabs-between-attributes"][st - gen_imzml.NSTYLES])
+        if case["data"] is not None and any(len(sp["mz"]) == 0 for sp in case["data"]):
+            f.add("spectrum-without-peaks")
+        have = [any(it["t"] == "cv" and it["acc"] == ACC["TIC"] for it in sp["items"] + sp["tail"]) for sp in doc["spectra"]]
+        if any(a and not b for a, b in zip(have, have[1:])):
+            f.add("tic-absent-after-stored")
+        if len(doc["settings"]) > 3:
+            f.add("scanSettings:6")
+        if len(doc["settings"]) > 1:
+            f.add("scanSettings:" + ("all-equal" if all(st["items"] == doc["settings"][0]["items"] for st in doc["settings"]) else "differing"))
         ab = case["abort"]
         if ab is not None and not 0 <= ab < nspec:
             ab = None
@@ -1115,7 +1237,7 @@ class C17(Prop):
     def shrink(self, case):
         doc = case["doc"]
         sp = doc["spectra"]
-        for k in ("entity", "non_ascii", "hist", "cbv"):
+        for k in ("entity", "non_ascii", "hist", "cbv", "text", "long_lines"):
             if case.get(k) is not None:
                 yield {kk: v for kk, v in case.items() if kk != k}
         if case.get("hist") is not None:
